@@ -86,7 +86,7 @@ def generate(seed, tier, cfg):
 
 def _knobs(k, rich, ext, route):
     return {
-        "knobs": {"rich": rich, "ext": ext, "route": route, "chunk": k.choice((0, 0, 7, 64)), "style": {"attr_defs": k.random() < 0.5, "beams": False, "ppq": k.random() < 0.5, "mrest": True, "durppq": k.random() < 0.5, "same_part": k.random() < 0.7, "split": [k.randrange(0, 8), k.randrange(0, 8), k.random() < 0.6] if k.random() < 0.45 else None}},
+        "knobs": {"rich": rich, "ext": ext, "route": route, "chunk": k.choice((0, 0, 7, 64)), "style": {"attr_defs": k.random() < 0.5, "beams": False, "ppq": k.random() < 0.5, "mrest": True, "durppq": k.random() < 0.5, "naturals": k.random() < 0.5, "same_part": k.random() < 0.7, "split": [k.randrange(0, 8), k.randrange(0, 8), k.random() < 0.6] if k.random() < 0.45 else None}},
     }["knobs"]
 
 
